@@ -66,6 +66,27 @@ def rand_tree(rng, max_entries=30, max_depth=4, dir_p=0.4):
     return out
 
 
+def deep_tree(rng, max_depth=45):
+    """a narrow deep tree: a spine of directories with a few siblings per level (stack-growth boundaries)"""
+    depth = rng.choice([8, 9, 10, 11, 12, 19, 20, 21, 22, 41, 42, 43]) if rng.random() < 0.6 else rng.randint(5, max_depth)
+    out = []
+    pre = b""
+    for lvl in range(depth):
+        names = sibling_names(rng, rng.randint(1, 3))
+        spine = rng.choice(names)
+        for nm in names:
+            if nm == spine:
+                out.append((pre + nm, True))
+            else:
+                out.append((pre + nm, rng.random() < 0.3))
+        pre = pre + spine + b"/"
+    # leaf level: several siblings so that order among them matters
+    for nm in sibling_names(rng, rng.randint(1, 4)):
+        out.append((pre + nm, rng.random() < 0.5))
+    out.sort(key=lambda e: pathkey(e[0]))
+    return out
+
+
 def pathkey(p):
     """sort key realising the protocol order ('/' lowest)"""
     return [0 if c == 0x2f else c + 1 for c in p]
@@ -189,3 +210,66 @@ def mutate_listing(rng, lst):
             x["ln"] = ""
     ents.sort(key=lambda x: pathkey(bytes.fromhex(x["p"])))
     return ents
+
+
+# ------------------------------------------------------------------ trees to materialise on disk
+XATTRS = [(b"user.a", b"1"), (b"user.b", b""), (b"trusted.t", b"\x00\xff"), (b"security.s", b"x"), (b"user.long", b"v" * 40)]
+
+
+def disk_tree(rng, max_entries=30, max_depth=5, types=("dir", "file", "symlink", "fifo", "chr", "blk", "hardlink", "sock"),
+              deep=False, file_sizes=(0, 1, 5, 100, 4096), xattrs=True, shape=None):
+    """a tree description for the harness's mktree: list of dict (parents first)"""
+    from .core import hx
+    if shape is None:
+        shape = deep_tree(rng, 12) if deep else rand_tree(rng, max_entries, max_depth)
+    out = []
+    linkable = []  # non-dir, non-hardlink entries that can be hard-link sources
+    for p, d in shape:
+        if len(p) > 3000:
+            continue
+        e = {"p": hx(p), "uid": rng.choice([0, 0, 1000, 65534]), "gid": rng.choice([0, 0, 1000, 65534]),
+             "mt": rng.choice(MTIMES[:4] + [1234567890_987654321])}
+        if d:
+            e["t"] = "dir"
+            e["mode"] = rng.choice([0o755, 0o700, 0o1777, 0o2755, 0o750])
+        else:
+            r = rng.random()
+            t = "file"
+            if r < 0.55 or len(types) <= 2:
+                t = "file"
+            elif r < 0.68 and "symlink" in types:
+                t = "symlink"
+            elif r < 0.78 and "hardlink" in types and linkable:
+                t = "hardlink"
+            elif r < 0.84 and "fifo" in types:
+                t = "fifo"
+            elif r < 0.9 and "chr" in types:
+                t = "chr"
+            elif r < 0.95 and "blk" in types:
+                t = "blk"
+            elif "sock" in types and r >= 0.98:
+                t = "sock"
+            e["t"] = t
+            e["mode"] = rng.choice([0o644, 0o600, 0o755, 0o4755, 0o2755, 0o400, 0o666])
+            if t == "file":
+                e["size"] = rng.choice(file_sizes)
+            elif t == "symlink":
+                e["ln"] = hx(rng.choice([b"a", b"../a", b"/abs/x", b"b/c", b".", b"..", b"a b", b"\xff"]))
+            elif t == "hardlink":
+                src = rng.choice(linkable)
+                e["ln"] = src["p"]
+            elif t in ("chr", "blk"):
+                e["maj"] = rng.choice([1, 8, 250])
+                e["min"] = rng.choice([0, 3, 5, 255])
+            if t not in ("hardlink", "dir") and (t != "symlink" or rng.random() < 0.3):
+                linkable.append(e)
+        if xattrs and e["t"] != "hardlink" and rng.random() < 0.2:
+            xs = []
+            for k, v in rng.sample(XATTRS, rng.randint(1, 2)):
+                if k.startswith(b"user.") and e["t"] not in ("file", "dir"):
+                    continue
+                xs.append([hx(k), hx(v)])
+            if xs:
+                e["x"] = sorted(xs)
+        out.append(e)
+    return out
